@@ -72,6 +72,7 @@ type FuncContract struct {
 	Lemma      bool // ghost function defined in spec file; verified like code
 	Lets       [][2]string
 	Options    map[string]bool
+	Unbound    bool
 	GhostLog   []string  // calls to these functions are recorded in the ghost log instead of being executed
 	Defines    []*Clause // assumed by callers, not an obligation: defines an uninterpreted ghost function by the function's behaviour
 }
@@ -83,6 +84,7 @@ type PkgContracts struct {
 	Funcs   []*FuncContract
 	ByName  map[string]*FuncContract
 	Imports map[string]string // name -> path (union over package files)
+	BindErrors []string
 }
 
 var kwRe = regexp.MustCompile(`^(func|lemma|let|option|ghostlog|requires|ensures|defines|canary|modifies|loop|inline|trusted|assumes|returns)\b`)
@@ -254,6 +256,12 @@ func parseContractFile(path string, pc *PkgContracts) error {
 					last = c
 				case "body-ensures":
 					c := &Clause{Kind: "body-ensures", Text: txt, Line: i + 1, Loop: k}
+					if strings.HasPrefix(txt, "[") {
+						if j := strings.Index(txt, "]"); j > 0 {
+							c.Name = txt[1:j]
+							c.Text = strings.TrimSpace(txt[j+1:])
+						}
+					}
 					lc.BodyEnsures = append(lc.BodyEnsures, c)
 					last = c
 				case "decreases":
@@ -602,7 +610,9 @@ func genOverlay(pc *PkgContracts, files []*ast.File, specDir string) (string, er
 		} else {
 			fd, _ := funcDeclFor(files, fc.QualName)
 			if fd == nil {
-				return "", fmt.Errorf("bind:%s.%s: no such function in package source", pc.Name, fc.QualName)
+				pc.BindErrors = append(pc.BindErrors, fmt.Sprintf("bind:%s.%s: no such function in package source", pc.Name, fc.QualName))
+				fc.Unbound = true
+				continue
 			}
 			if fd.Recv != nil {
 				pnames, ptypes = fieldListNames(fd.Recv, "recv")
